@@ -74,6 +74,7 @@ def main(argv=None):
                                         isinstance(v["case"], dict) else 0,
                                         len(json.dumps(v["case"], default=repr))))
     unconfirmed = 0
+    flaky = []
     for viol in part.violations:
         if (prop, viol["key"]) not in known and len(new) >= MAX_REPORTED:
             unconfirmed += 1            # beyond what is reported: not re-executed
@@ -96,10 +97,12 @@ def main(argv=None):
             # deterministic, self-contained violation; anything else is a harness error.
             fresh = [_fresh_replay(prop, viol["case"]) for _ in range(2)]
             if not fresh[0] or fresh[0] != fresh[1]:
-                print(f"HARNESS-ERROR: violation {viol['key']} did not reproduce identically "
-                      f"(in-process {again[0]!r} vs {again[1]!r}; fresh processes {fresh[0]!r} vs "
-                      f"{fresh[1]!r}); msg was {viol['msg']!r}")
-                return 2
+                flaky.append(f"violation {viol['key']} did not reproduce identically "
+                             f"(in-process {again[0]!r} vs {again[1]!r}; fresh processes "
+                             f"{fresh[0]!r} vs {fresh[1]!r}); msg was {viol['msg']!r}")
+                if len(flaky) >= 6:
+                    break
+                continue
             viol["msg"] = fresh[0][0] + "  [state carried between calls: reproduced from a " \
                                         "fresh interpreter]"
         if (prop, viol["key"]) in known:
@@ -107,6 +110,14 @@ def main(argv=None):
         else:
             new.append(viol)
 
+    if flaky and not new:
+        # nothing reproduced deterministically: the harness does not own the nondeterminism
+        # (or the case is not self-contained) - no verdict
+        for line in flaky[:3]:
+            print("HARNESS-ERROR: " + line)
+        return 2
+    for line in flaky[:2]:
+        print("  note (not counted): " + line[:300])
     for viol in listed:
         print(f"KNOWN-FINDING: property={prop} key={viol['key']} {known[(prop, viol['key'])]}")
     os.makedirs(REPLAY_DIR, exist_ok=True)
@@ -165,6 +176,9 @@ def _replay(module, prop, path, as_json=False):
         doc = json.load(handle)
     msgs = module.replay(doc["case"])
     if as_json:
+        if not msgs:
+            # state carried from one call to the next shows on the second identical call
+            msgs = ["on the second identical call: " + str(m) for m in module.replay(doc["case"])]
         print("REPLAY-JSON " + json.dumps([str(m) for m in msgs]))
         return 1 if msgs else 0
     if msgs:
